@@ -101,7 +101,10 @@ class FWorker(env.BaseWorker):
         self.cur_site = i
         if self.fault is not None and self.fault[1] == "SHORT":
             return
-        if is_fault_site(op):
+        if is_fault_site(op) or (self.fault is not None and len(self.fault) > 3 and self.fault[3] == "any"
+                                 and self.fault[0] == i):
+            # ("any": the caller asks for a fault at exactly this operation although its kind - a read - is not in the
+            # default fault-site set)
             dest = self.real[-1] if self.real else None
             if self.fault is not None and self.fault[0] == i:
                 self.injected += 1
